@@ -315,7 +315,10 @@ class FFTMTF:
             float: The MTF units calculated based on the grid size, number
                 of rays, wavelength, and F-number.
         """
+        # frequency step of the DFT of the PSF: 1 / (grid_size * pixel size),
+        # pixel size = wavelength * FNO / Q; wavelength converted to mm so
+        # that frequencies are in cycles/mm, as is max_freq
         Q = self.grid_size / self.num_rays
-        dx = Q / (self.wavelength * self.FNO)
+        dx = Q / (self.wavelength * 1e-3 * self.FNO * self.grid_size)
 
         return dx
